@@ -69,10 +69,13 @@ func genC10(t *rapid.T) *c10Case {
 	return c
 }
 
+// rewriteStat is what the map function does to a stat it keeps. It is not
+// idempotent on purpose: every call gets a stat of its own, so an entry that is
+// consulted more than once still shows one application.
 func rewriteStat(st *types.Stat) {
-	st.Uid, st.Gid = 4242, 4343
+	st.Uid, st.Gid = st.Uid+4242, 4343
 	st.Mode = (st.Mode &^ 0o777) | 0o741
-	st.ModTime = 123456789
+	st.ModTime += 123456789
 }
 
 type c10Outcome struct {
@@ -81,7 +84,10 @@ type c10Outcome struct {
 	err   error
 }
 
-func c10RunReal(src string, c *c10Case) c10Outcome {
+// c10Pristine, when set by the check, holds the stats of the plain walk: the map
+// function must be handed exactly those (it is consulted on the entry's own stat,
+// however often the walk comes back to an entry).
+func c10RunReal(src string, c *c10Case, pristine ...map[string]*types.Stat) c10Outcome {
 	var out c10Outcome
 	opt := &fsutil.FilterOpt{IncludePatterns: listArg(c.Include, c.EmptyLists), ExcludePatterns: listArg(c.Exclude, c.EmptyLists)}
 	if c.Map != nil {
@@ -89,6 +95,11 @@ func c10RunReal(src string, c *c10Case) c10Outcome {
 			out.calls = append(out.calls, "map:"+p)
 			if st.Path != p {
 				out.calls = append(out.calls, fmt.Sprintf("mapmismatch:%s:%s", p, st.Path))
+			}
+			if len(pristine) > 0 {
+				if want := pristine[0][p]; want != nil && !st.EqualVT(want) {
+					out.calls = append(out.calls, fmt.Sprintf("mapdirty:%s:%v", p, st))
+				}
 			}
 			r := c.Map[p]
 			if r.Rewrite {
@@ -163,7 +174,7 @@ func c10Check(env *h.Env, c *c10Case) error {
 		listing = append(listing, h.FilterEntry{Path: w.Path, IsDir: w.Stat.IsDir()})
 	}
 	ref, rerr := c10Reference(listing, c, false)
-	real := c10RunReal(src, c)
+	real := c10RunReal(src, c, fullStat)
 	if rerr != nil {
 		env.Class("invalid-pattern")
 		if real.err == nil {
@@ -201,6 +212,8 @@ func c10Check(env *h.Env, c *c10Case) error {
 	mapped := map[string]bool{}
 	for _, ev := range real.calls {
 		switch {
+		case strings.HasPrefix(ev, "mapdirty:"):
+			return fmt.Errorf("the map function was handed a stat that is not the entry's own (an earlier consultation's rewrite shows through): %s", ev[len("mapdirty:"):])
 		case strings.HasPrefix(ev, "mapmismatch:"):
 			return fmt.Errorf("map function called with path that differs from stat.Path: %s", ev)
 		case strings.HasPrefix(ev, "map:"):
